@@ -131,3 +131,83 @@ Proof.
   - eexists. eexists. split; vm_compute; reflexivity.
   - eexists. eexists. split; [vm_compute; reflexivity|]. split; vm_compute; reflexivity.
 Qed.
+
+(* ==================================================================================================
+   Extension: the data-file directory and the processor type (get_file_directory, _parse_file0,
+   _read_whole_file_directory, _get_sys0_info).  Model: Model/SlcDir.v.  Oracle: Spec/SlcDirSpec.v
+   (the file-0 image of a directory, written from the layout: header of the family's length, one
+   row per file number = type code, 16-bit length, uninterpreted rest; 0x81 = unused number).
+   ================================================================================================== *)
+From PV Require Import Model.SlcDir Spec.SlcDirSpec Proofs.SlcDirP Proofs.SlcDirReadP.
+
+(* round trip: for every catalog string (hence every family), every header of the family's length
+   and every list of files with strictly increasing numbers >= 0, element counts >= 0 and lengths
+   (elements x element size) below 65536, _parse_file0 returns exactly that directory: name =
+   type letters + decimal number, elements, length, in file-number order.  Row level (any position
+   >= 53 and any row size): reserved rows (0x81) take a file number, rows whose type byte is any
+   other byte outside the type table are skipped WITHOUT taking a number. *)
+Definition C18_dir_roundtrip_full : Prop :=
+  (forall cat hdr fs,
+     length hdr = fam_position (family_of_catalog cat) -> wf_files 0 fs ->
+     parse_file0 (get_sys0_info cat) (encode_dir (family_of_catalog cat) hdr fs) = DOk (map conv (dir_view fs)))
+  /\ (forall pos rs hdr rows,
+        length hdr = pos -> (53 <= pos)%nat -> Forall (wf_row rs) rows ->
+        parse_file0_at pos rs (encode_rows hdr rows) = DOk (map conv (number_rows 0 rows))).
+
+Theorem C18_dir_roundtrip : C18_dir_roundtrip_full.
+Proof. exact dir_roundtrip_all. Qed.
+Print Assumptions C18_dir_roundtrip.
+
+Definition ex_files : list dfile :=
+  [{| d_type := TO; d_num := 0; d_elements := 1 |}; {| d_type := TI; d_num := 1; d_elements := 2 |};
+   {| d_type := TS; d_num := 2; d_elements := 83 |}; {| d_type := TB; d_num := 3; d_elements := 1 |};
+   {| d_type := TT; d_num := 4; d_elements := 40 |}; {| d_type := TN; d_num := 7; d_elements := 32767 |};
+   {| d_type := TST; d_num := 12; d_elements := 780 |}; {| d_type := TPLS; d_num := 255; d_elements := 0 |}].
+Definition ex_cat : list Z := [49; 55; 54; 54; 45; 76; 51; 50].      (* 1766-L32 *)
+Example C18_dir_nonvacuous :
+  wf_files 0 ex_files /\ length (zeros 233) = fam_position (family_of_catalog ex_cat)
+  /\ length (encode_dir (family_of_catalog ex_cat) (zeros 233) ex_files) = 2793%nat
+  /\ parse_file0 (get_sys0_info ex_cat) (encode_dir (family_of_catalog ex_cat) (zeros 233) ex_files)
+     = DOk [([79; 48], {| fe_elements := 1; fe_length := 2 |}); ([73; 49], {| fe_elements := 2; fe_length := 4 |});
+            ([83; 50], {| fe_elements := 83; fe_length := 166 |}); ([66; 51], {| fe_elements := 1; fe_length := 2 |});
+            ([84; 52], {| fe_elements := 40; fe_length := 240 |}); ([78; 55], {| fe_elements := 32767; fe_length := 65534 |});
+            ([83; 84; 49; 50], {| fe_elements := 780; fe_length := 65520 |});
+            ([80; 76; 83; 50; 53; 53], {| fe_elements := 0; fe_length := 0 |})]
+  /\ Forall (wf_row 10) [RForeign 34 (zeros 9); RFile TN 5 (zeros 7); RForeign 0 (zeros 9); RReserved (zeros 9); RFile TF 2 (zeros 7)]
+  /\ parse_file0_at 79 10 (encode_rows (zeros 79) [RForeign 34 (zeros 9); RFile TN 5 (zeros 7); RForeign 0 (zeros 9); RReserved (zeros 9); RFile TF 2 (zeros 7)])
+     = DOk [([78; 48], {| fe_elements := 5; fe_length := 10 |}); ([70; 50], {| fe_elements := 2; fe_length := 8 |})].
+Proof.
+  split; [cbn; lia|]. split; [reflexivity|]. split; [vm_compute; reflexivity|]. split; [vm_compute; reflexivity|].
+  split; [|vm_compute; reflexivity].
+  repeat (constructor; [unfold wf_row, RESERVED_CODE; repeat split; try (vm_compute; reflexivity); try lia|]).
+  constructor.
+Qed.
+
+(* the reads of _read_whole_file_directory tile the image: for every image, every size within it,
+   every even chunk size that fits the one-byte size field (the code's is 0x50) the reads are
+   contiguous in word offsets from 0 to the size, none is empty, and the data returned (= the
+   concatenation of what the controller served) is the first [size] bytes of the image *)
+Definition C18_dir_reads_tile_full : Prop :=
+  (forall image chunk (sz : nat) fuel,
+     0 < chunk <= 255 -> chunk mod 2 = 0 -> (sz <= length image)%nat -> Z.of_nat sz < 131072 -> (sz < fuel)%nat ->
+     exists reads,
+       read_loop fuel chunk (Z.of_nat sz) (serve_image image) [] 0 [] = ROk (firstn sz image) reads
+       /\ tiles 0 reads (Z.of_nat sz)
+       /\ served image reads = firstn sz image)
+  /\ (forall image (sz : nat),
+        (sz <= length image)%nat -> Z.of_nat sz < 131072 ->
+        exists reads,
+          read_whole_file_directory (S sz) (Z.of_nat sz) (serve_image image) = ROk (firstn sz image) reads
+          /\ tiles 0 reads (Z.of_nat sz) /\ served image reads = firstn sz image).
+
+Theorem C18_dir_reads_tile : C18_dir_reads_tile_full.
+Proof. exact dir_reads_tile_all. Qed.
+Print Assumptions C18_dir_reads_tile.
+
+Example C18_dir_reads_nonvacuous :
+  read_whole_file_directory 202 201 (serve_image (map Z.of_nat (seq 0 201)))
+    = ROk (map Z.of_nat (seq 0 201)) [(80, 0); (80, 40); (41, 80)]
+  /\ tiles 0 [(80, 0); (80, 40); (41, 80)] 201
+  (* an odd chunk would NOT tile: offsets count words *)
+  /\ read_loop 10 3 6 (serve_image [1; 2; 3; 4; 5; 6]) [] 0 [] = ROk [1; 2; 3; 3; 4; 5] [(3, 0); (3, 1)].
+Proof. split; [vm_compute; reflexivity|]. split; [cbn; lia|vm_compute; reflexivity]. Qed.
